@@ -614,24 +614,29 @@ def _undo_real_faults(sim: Sim, undo):
 
 
 # ================================================================= operations
-_INFO_LINE = re.compile(r"^\d{4}-\d\d-\d\d \d\d:\d\d:\d\d,\d{3} - \S+ - INFO - (.*)$")
+_ADDR_LINE = re.compile(r"(?:^|[\s\-:|\]])Matched address: (.*)$")
+_RESULT_LINE = re.compile(r"RESULT: Pattern (not found|found)\s*$")
+_NOISE = ("Message: ", "Arguments: ", "  File ", "Traceback ", "--- Logging error ---", "Call stack:")
 
 
 def parse_cli_stderr(text: str):
-    """(verdict, [addresses], n_result_lines) from the terminal log of one CLI invocation."""
+    """(verdict, [addresses], n_result_lines) from what one CLI invocation printed.
+
+    Deliberately independent of the log line prefix (time stamp, logger name, level): the property
+    speaks about the `RESULT: ...` and `Matched address ...` messages, not about their decoration.
+    Lines of logging's own error reports / tracebacks are skipped."""
     verdicts = []
     addrs = []
     for line in text.split("\n"):
-        m = _INFO_LINE.match(line)
-        if not m:
+        if line.startswith(_NOISE):
             continue
-        msg = m.group(1)
-        if msg.startswith("Matched address: "):
-            addrs.append(msg[len("Matched address: "):])
-        elif msg == "RESULT: Pattern found":
-            verdicts.append("found")
-        elif msg == "RESULT: Pattern not found":
-            verdicts.append("notfound")
+        m = _ADDR_LINE.search(line)
+        if m:
+            addrs.append(m.group(1))
+            continue
+        m = _RESULT_LINE.search(line)
+        if m:
+            verdicts.append("found" if m.group(1) == "found" else "notfound")
     verdict = verdicts[0] if len(verdicts) == 1 else (None if not verdicts else "ambiguous:" + ",".join(verdicts))
     return verdict, addrs, len(verdicts)
 
@@ -701,7 +706,8 @@ def _exec_cli(op):
     finally:
         sys.argv, sys.stdout, sys.stderr = old
     text = err.getvalue()
-    verdict, addrs, nres = parse_cli_stderr(text)
+    # the messages are looked for on both streams: which one the log goes to is not part of the property
+    verdict, addrs, nres = parse_cli_stderr(text + "\n" + out.getvalue())
     return ["cli", status, verdict, addrs, {"exc": exc, "n_result": nres, "stderr_tail": SIM.norm(text[-600:]),
                                             "stdout": out.getvalue()[:200]}]
 
